@@ -96,6 +96,13 @@ def _semdrive(bins, mod, pattern, taint, backtrace, out, timeout, pointer=(), es
     return json.load(open(out)), None
 
 
+def inst_of(name):
+    """type arguments of an instantiated generic function: '(prog/p.gbox[int]).get[int]' -> 'int'; '' otherwise"""
+    import re
+    m = re.search(r"\[([^\[\]]*)\]$", name or "")
+    return m.group(1) if m else ""
+
+
 def _split_facts(f, plist):
     """distribute the facts of one semdrive run over its programs; returns reason if they are unusable"""
     if f.get("loaderr"):
@@ -138,14 +145,16 @@ def _split_facts(f, plist):
                                         "findreach": {k: [] for k in t["findreach"]}}
         for e in t["edges"]:
             if e["prog"] in byname:
-                byname[e["prog"]].facts["pointer"][name]["edges"].append([e["site"], e["callee"]])
+                byname[e["prog"]].facts["pointer"][name]["edges"].append([e["site"], e["callee"], inst_of(e["name"])])
         for e in t["resolve"]:
             if e["prog"] in byname:
-                byname[e["prog"]].facts["pointer"][name]["resolve"].append([e["site"], e["callee"]])
+                byname[e["prog"]].facts["pointer"][name]["resolve"].append([e["site"], e["callee"], inst_of(e["name"])])
         for k in ("reach", "allfuncs"):
             for e in t[k]:
                 if e["prog"] in byname:
                     byname[e["prog"]].facts["pointer"][name][k].append(e["line"])
+                    if k == "reach":
+                        byname[e["prog"]].facts["pointer"][name].setdefault("reachi", []).append([e["line"], inst_of(e["name"])])
         for sel, lst in t["findreach"].items():
             for e in lst:
                 if e["prog"] in byname:
@@ -561,7 +570,7 @@ CALL_FAMS = ["value", "field", "call", "closure", "iface", "defer", "global"]
 
 def calls_facts_of(p):
     f = p.facts["pointer"]["ptr"]
-    return {"edges": f["edges"], "resolve": f["resolve"], "reach": f["reach"], "allfuncs": f["allfuncs"],
+    return {"edges": f["edges"], "resolve": f["resolve"], "reach": f["reach"], "reachi": f.get("reachi", []), "allfuncs": f["allfuncs"],
             "fr_all": f["findreach"]["all"], "fr_nomain": f["findreach"]["nomain"],
             "fr_noinit": f["findreach"]["noinit"], "fr_none": f["findreach"]["none"]}
 
